@@ -204,6 +204,14 @@ def join_byte_intervals(
                     if aux_data and bi in aux_data:
                         table[bi] = aux_data[bi]
             if len(table) > 0:
+                # The destination needs to map to its aux data sub-dict as
+                # well, even if it has no entries yet, so that items moved
+                # into it end up in the aux data table.
+                dest = intervals[0]
+                if dest not in table and dest.module is not None:
+                    aux_data = table_def.get(dest.module)
+                    if aux_data is not None:
+                        table[dest] = aux_data.setdefault(dest, {})
                 tables.append(table)  # type: ignore # per above this is hacky
 
     destination = intervals[0]
